@@ -5,6 +5,7 @@ import (
 	"bytes"
 	crand "crypto/rand"
 	"crypto/sha256"
+	"errors"
 	"fmt"
 	"math"
 	"os"
@@ -311,7 +312,7 @@ func sequence(r *ev.Run, c *ev.Case, seqNo int, mon *chalMon) {
 		r.Eval(1)
 		runErr, escaped := gsrig.Run(param, []gensign.Handler{rig.Handler}, signer)
 		if escaped != "" {
-			r.Violation(c, "panic-escapes-run:"+beh, escaped, rec)
+			r.Violation(c, gsrig.EscapeSig(escaped)+":"+beh, escaped, rec)
 			return
 		}
 		rec.Result = gsrig.Kind(runErr)
@@ -502,6 +503,12 @@ func (s *stubHandler) Authenticate(*csr.ReqParam) error {
 	if s.accept {
 		return nil
 	}
+	switch s.authCalls % 3 {
+	case 1:
+		return errors.New("scripted rejection (plain error)")
+	case 2:
+		return fmt.Errorf("wrapped: %w", gensign.NewErrorWithMsg(gensign.HandlerAuthN, s.name, "scripted rejection"))
+	}
 	return gensign.NewErrorWithMsg(gensign.HandlerAuthN, s.name, "scripted rejection")
 }
 func (s *stubHandler) Generate(*csr.ReqParam) ([]csr.AgentKey, error) {
@@ -541,7 +548,7 @@ func handlerLists(r *ev.Run) {
 						continue
 					}
 					r.Eval(1)
-					r.Guard(c, "handler list", nil, func() { oneList(r, c, n, pat, realPos, realOK) })
+					r.Guard(c, "handler list", nil, func() { oneList(r, c, n, pat, realPos, realOK, idx) })
 				}
 			}
 		}
@@ -568,7 +575,7 @@ func handlerLists(r *ev.Run) {
 				err, escaped := gsrig.Run(gsrig.Param(gsrig.ParamSpec{LogName: "alice", ReqUser: "u", ReqHost: "h", ClientIP: "1.2.3.4", TransID: "0123456789", Policy: "NONS"}), hs, signer)
 				rec := map[string]any{"handlers": n, "panicking_position": pos, "log": log}
 				if escaped != "" {
-					r.Violation(c, "panic-escapes-run:handler-list", escaped, rec)
+					r.Violation(c, gsrig.EscapeSig(escaped)+":handler-list", escaped, rec)
 					return
 				}
 				gens := 0
@@ -591,7 +598,7 @@ func handlerLists(r *ev.Run) {
 	r.Extra("handler_list_patterns", idx)
 }
 
-func oneList(r *ev.Run, c *ev.Case, n, pat, realPos int, realOK bool) {
+func oneList(r *ev.Run, c *ev.Case, n, pat, realPos int, realOK bool, variant int) {
 	var log []string
 	var hs []gensign.Handler
 	var stubs []*stubHandler
@@ -622,7 +629,7 @@ func oneList(r *ev.Run, c *ev.Case, n, pat, realPos int, realOK bool) {
 			}
 			continue
 		}
-		s := &stubHandler{name: fmt.Sprintf("stub%d", i), accept: pat&(1<<uint(i)) != 0, log: &log}
+		s := &stubHandler{name: fmt.Sprintf("stub%d", i), accept: pat&(1<<uint(i)) != 0, log: &log, authCalls: (variant + i) % 3}
 		stubs = append(stubs, s)
 		hs = append(hs, s)
 		if s.accept && firstAccept == "" {
@@ -633,7 +640,7 @@ func oneList(r *ev.Run, c *ev.Case, n, pat, realPos int, realOK bool) {
 	rec := map[string]any{"handlers": n, "accept_pattern": fmt.Sprintf("%0*b", n, pat), "real_handler_position": realPos, "real_handler_accepts": realOK, "first_accepting": firstAccept}
 	err, escaped := gsrig.Run(gsrig.Param(gsrig.ParamSpec{LogName: "alice", ReqUser: "u", ReqHost: "h", ClientIP: "1.2.3.4", TransID: "0123456789", Policy: "NONS"}), hs, signer)
 	if escaped != "" {
-		r.Violation(c, "panic-escapes-run:handler-list", escaped, rec)
+		r.Violation(c, gsrig.EscapeSig(escaped)+":handler-list", escaped, rec)
 		return
 	}
 	rec["log"] = log
